@@ -50,7 +50,8 @@ def script_cases(rng, tier):
             for _ in range(rng.randint(0, 2)):
                 c.op("hseek", w, "c", rng.choice([0, 1, -1, -3, 10, I64MIN]))
                 c.op("hseek", w, "e", rng.choice([0, -1, 1, 9, -100]))
-            c.op("hdrop", w)
+            # every third script: the handle goes out of scope while its owner unwinds from a panic - a drop like any other
+            c.op("hdropunwind" if i % 3 == 2 else "hdrop", w)
             c.op("snap", t)
             if not g.has_phys:
                 a = c.op("appendfile", vfx.ps(t, "f"))
@@ -58,7 +59,7 @@ def script_cases(rng, tier):
                 wh = rng.choice(["s", "c", "e"])
                 c.op("hseek", a, wh, rng.choice([0, 1, 3] if wh == "s" else [0, 1, -1, 3]))
                 c.op("hwrite", a, vfx.hexs(b"!"))
-                c.op("hdrop", a)
+                c.op("hdropunwind" if i % 4 == 1 else "hdrop", a)
                 c.op("snap", t)
             # a create handle over an EXISTING non-empty file starts empty: its end is 0, and what is published is what
             # was written through it, not the old tail
@@ -85,6 +86,7 @@ P = histprop.HistProp(
           "{0,+-1,len-1,len,len+1,-len,-len-1,i64::MIN,i64::MAX,2^40,u64::MAX} on read handles (file in the upper or in a lower "
           "layer), each script continued after a read_to_end (the drained handle must sit at its end); write/seek/flush scripts on create handles, also on a create handle over an existing non-empty file (it starts "
           "empty); seek on append handles on the in-memory configurations only; "
+          "every third write handle is dropped while its owner unwinds from a panic (harness op hdropunwind: a drop like any other); "
           "every handle call's return value and the published bytes are compared, in debug and release builds"),
     assumptions=["write positions stay small (Vec allocation)", "std::io::Cursor semantics as stated in Base/Handles.v"])
 generate, corpus, known = P.generate, P.corpus, P.known
